@@ -30,6 +30,8 @@ PtC(e, k)       == Ora(e, "ptc", k, Zeros(33))
 PtU(e, k)       == Ora(e, "ptu", k, Zeros(65))
 \* compressed SEC of P + Q for compressed SEC inputs; <<>> for infinity
 PtAddC(e, P, Q) == Ora(e, "ptadd", <<P, Q>>, Zeros(33))
+\* uncompressed SEC of the point whose compressed SEC is given
+Uncompress(e, P) == Ora(e, "uncompress", P, Zeros(65))
 \* curve membership / decompression of a SEC candidate: <<>> if not a valid
 \* encoding of a curve point, else its compressed SEC
 SecNorm(e, s)   == Ora(e, "secnorm", s, <<>>)
